@@ -176,7 +176,8 @@ def cases(tier, seed):
                 if shape != 'N1B2C1' and m == 'seq':
                     continue
                 for which in range(3):
-                    for fault in (['oserror'], ['empty'], ['nohdr'], ['hdronly'],
+                    for fault in (['oserror'], ['oserror_EAGAIN'], ['oserror_EMFILE'], ['oserror_ENOENT'],
+                                  ['empty'], ['nohdr'], ['hdronly'],
                                   ['cutline', 1], ['cutline', 2], ['cutlast', 3],
                                   ['die_before_report'], ['noise_then_cut']):
                         yield [shape, scs, {}, [], m, [which] + fault]
@@ -239,6 +240,21 @@ def _mk_hook(cf, state):
         return hook_late
 
     def hook(layer, args):
+        if kind.startswith('oserror_'):
+            # the spawn of ONE layer fails with this errno on every attempt
+            # (EAGAIN, ENOMEM, EMFILE: whatever a retry loop does, it does not
+            # get a process)
+            if state.get('layer') is None:
+                i = state['n']
+                state['n'] += 1
+                if i != which:
+                    return None
+                state['layer'] = layer
+            if layer != state['layer']:
+                return None
+            state['hit'] = True
+            import errno as _errno
+            return ('oserror', getattr(_errno, kind.split('_', 1)[1]))
         i = state['n']
         state['n'] += 1
         if i != which:
@@ -436,7 +452,7 @@ def run_case(case):
         # the fault is real unless the mangled bytes equal the original report
         c = [c for c in res.children]
         child_fault_effective = True
-        if cf[1] not in ('oserror',):
+        if not cf[1].startswith('oserror'):
             orig = state.get('orig_err')
             got = None
             for ch in res.children:
